@@ -23,9 +23,9 @@ CFG = dict(
     streams=[('sched', 1500, 30000, 'http2test'), ('prio', 1500, 30000, 'http2test')],
     corpus_exec={'d7_idle_open_evicted.ops': 'http2test'},
     self_evident=tree_broken,
-    oracle_ops=set(),
-    twophase_ops={'sched'},
-    http2_ops={'sched'},
+    oracle_ops={'schedtrace'},
+    twophase_ops={'sched', 'schedtrace'},
+    http2_ops={'sched', 'schedtrace'},
     rule=("random operation sequences (open / close / push DATA of 0..40000 bytes with/without END_STREAM / push non-DATA / push "
           "control / push control naming a stream / stream and connection window updates incl. negative / max frame size / pop; "
           "5..130 operations, up to 12 open streams) against the real round-robin and random schedulers through package-internal "
